@@ -4,21 +4,9 @@
 //! exit 1: "VIOLATION property=<id> replay=<path>" for a violation not listed as known
 //! exit 2: "INCONCLUSIVE property=<id> reason=..." (harness problem, floor not met, watchdog)
 
-pub mod apkt;
-pub mod bridge;
-pub mod checks;
-pub mod conn;
-pub mod driver;
-pub mod findings;
-pub mod gen;
-pub mod guard;
-pub mod libcodec;
-pub mod model;
-pub mod refcodec;
-pub mod report;
-pub mod rng;
 
-use report::{Ctx, Report, Tier, Violation};
+use mpcv_lib::{checks, findings, guard};
+use mpcv_lib::report::{Ctx, Report, Tier, Violation};
 use serde_json::{json, Value};
 use std::time::Instant;
 
